@@ -86,6 +86,10 @@ class ConfigList(ComposedNode, list):
         return self._del(index)
 
     @namespace('ayns')
+    def rename_child(self, old_name, new_name):
+        raise TypeError('Children of a list are numbered by position and cannot be renamed')
+
+    @namespace('ayns')
     def get_child(self, index, default=None):
         return self._get(index, default=default, raise_ex=False)
 
